@@ -2,6 +2,7 @@ import MsqModel.Ast
 import MsqModel.Py
 import MsqModel.Gen.Static
 import MsqModel.Gen.PyTables
+import MsqModel.Gen.LexOps
 /-!
 # Printer model: `source(sql_type)` of every node class (`core/node.py`)
 
@@ -50,11 +51,32 @@ def rowSrc : RowItem → String
   | .unbounded p => "UNBOUNDED " ++ (if p then "PRECEDING" else "FOLLOWING")
   | .num n p => s!"{n} " ++ (if p then "PRECEDING" else "FOLLOWING")
 
-def fnameSrc (s : Option String) (n : String) : String := match s with | some s => s!"`{s}`.{n}" | none => n
 /-- f-string rendering of `Optional[int]` -/
 def pyOptInt : Option Int → String | none => "None" | some n => toString n
 def tableNameSrc (s : Option String) (n : String) : String := match s with | some s => s!"`{s}.{n}`" | none => s!"`{n}`"
-def limitSrc (l : Int × Option Int) : String := s!"LIMIT {pyOptInt l.2}, {l.1}"
+def limitSrc (l : Int × Option Int) : String := match l.2 with | none => s!"LIMIT {l.1}" | some o => s!"LIMIT {o}, {l.1}"
+
+/-- `PLAIN_NAME.fullmatch` (`[A-Za-z_][A-Za-z0-9_]*`) -/
+def isPlainName (s : String) : Bool :=
+  match s.toList with
+  | [] => false
+  | c :: r => (c.isAlpha || c == '_') && r.all (fun x => x.isAlphanum || x == '_')
+/-- `quote_name_if_needed` -/
+def quoteName (s : String) : String :=
+  if isPlainName s && !(Gen.wordMarks.any (·.1 == Gen.pyUpperS s)) then s else s!"`{s}`"
+
+def fnameSrc (s : Option String) (n : String) : String := match s with | some s => s!"`{s}`.{quoteName n}" | none => quoteName n
+
+/-- `expression_level` -/
+def lvl : Expr → Nat
+  | .unary _ _ => 2
+  | .compute _ o _ => match Gen.computeEnum.find? (·.1 == o) with | some e => e.2.2 | none => 0
+  | .kw _ _ _ _ => 9 | .between _ _ _ _ => 9 | .exists_ _ => 9
+  | .compare _ _ _ => 10
+  | .not_ _ => 11 | .and_ _ _ => 12 | .xor _ _ => 13 | .or_ _ _ => 14
+  | _ => 0
+/-- `source_with_parenthesis` applied to an already printed child -/
+def wrap (e : Expr) (maxLevel : Nat) (src : String) : String := if lvl e > maxLevel then s!"({src})" else src
 def kwSrc (k : KwKind) (n : Bool) : String :=
   match k with
   | .is => if n then "IS NOT" else "IS"
@@ -71,14 +93,14 @@ def prE (d : Gen.D) : Expr → P
   | .func s n ps => (prList d ps).map fun p => s!"{fnameSrc s n}({joinS ", " p})"
   | .agg n ps dist => (prList d ps).map fun p => s!"{n}({if dist then "DISTINCT " else ""}{joinS ", " p})"
   | .cast e sg ty ps => do
-      let x ← prE d e
+      let x ← (prE d e).map (wrap e 8)
       let tv ← valueSrc Gen.castTypes ty
       let parts := (if sg then ["SIGNED"] else []) ++ [tv] ++ (match ps with | some l => ["(" ++ joinS ", " (l.map toString) ++ ")"] | none => [])
       pure s!"CAST({x} AS {joinS " " parts})"
-  | .extract n e => do let a ← prE d n; let b ← prE d e; pure s!"EXTRACT({a} FROM {b})"
+  | .extract n e => do let a ← (prE d n).map (wrap n 8); let b ← (prE d e).map (wrap e 8); pure s!"EXTRACT({a} FROM {b})"
   | .window fn part ord rows => do
       let a ← prE d fn
-      let p ← prList d part
+      let p ← prList8 d part
       let o ← prOrdList d ord
       let ps := (if part.isEmpty then [] else [s!"PARTITION BY {joinS ", " p}"])
         ++ (if ord.isEmpty then [] else [s!"ORDER BY {joinS ", " o}"])
@@ -93,23 +115,35 @@ def prE (d : Gen.D) : Expr → P
       let items ← prArms d cs
       let e ← prOptE d els
       pure (joinS "\n" (["CASE", a] ++ items.map ("    " ++ ·) ++ (match e with | some y => [s!"    ELSE {y}"] | none => []) ++ ["END"]))
-  | .subValue vs => (prList d vs).map fun p => s!"({joinS ", " p})"
+  | .subValue vs => (prList8 d vs).map fun p => s!"({joinS ", " p})"
   | .subQuery q => (prQ d q).map fun p => s!"({p})"
   | .exists_ v => (prE d v).map fun p => s!"EXISTS {p}"
-  | .index a _ => if d != .HIVE then .error .notSupported else prE d a
-  | .unary o e => do let a ← computeOpSrc d o; let b ← prE d e; pure s!"{a}{b}"
-  | .compute l o r => do let a ← prE d l; let b ← computeOpSrc d o; let c ← prE d r; pure s!"{a} {b} {c}"
-  | .kw k n l r => do let a ← prE d l; let b ← prE d r; pure s!"{a} {kwSrc k n} {b}"
-  | .between n b fr to => do let a ← prE d b; let x ← prE d fr; let y ← prE d to; pure s!"{a} {if n then "NOT " else ""}BETWEEN {x} AND {y}"
-  | .compare o l r => do let a ← prE d l; let b ← compareOpSrc o; let c ← prE d r; pure s!"{a} {b} {c}"
-  | .not_ e => (prE d e).map fun p => s!"NOT {p}"
-  | .and_ l r => do let a ← prE d l; let c ← prE d r; pure s!"{a} AND {c}"
-  | .xor l r => do let a ← prE d l; let c ← prE d r; pure s!"{a} XOR {c}"
-  | .or_ l r => do let a ← prE d l; let c ← prE d r; pure s!"{a} OR {c}"
+  | .index a i => if d != .HIVE then .error .notSupported else do
+      let x ← prE d a; let y ← (prE d i).map (wrap i 8); pure s!"{x}[{y}]"
+  | .unary o e => do
+      let a ← computeOpSrc d o
+      let b ← (prE d e).map (wrap e 2)
+      pure (if a == "-" && b.startsWith "-" then s!"{a} {b}" else s!"{a}{b}")
+  | .compute l o r => do
+      let k := lvl (.compute l o r)
+      let a ← (prE d l).map (wrap l k); let b ← computeOpSrc d o; let c ← (prE d r).map (wrap r (k - 1)); pure s!"{a} {b} {c}"
+  | .kw k n l r => do let a ← (prE d l).map (wrap l 9); let b ← (prE d r).map (wrap r 8); pure s!"{a} {kwSrc k n} {b}"
+  | .between n b fr to => do
+      let a ← (prE d b).map (wrap b 9); let x ← (prE d fr).map (wrap fr 8); let y ← (prE d to).map (wrap to 8)
+      pure s!"{a} {if n then "NOT " else ""}BETWEEN {x} AND {y}"
+  | .compare o l r => do let a ← (prE d l).map (wrap l 10); let b ← compareOpSrc o; let c ← (prE d r).map (wrap r 9); pure s!"{a} {b} {c}"
+  | .not_ e => (prE d e).map fun p => s!"NOT {wrap e 11 p}"
+  | .and_ l r => do let a ← (prE d l).map (wrap l 12); let c ← (prE d r).map (wrap r 11); pure s!"{a} AND {c}"
+  | .xor l r => do let a ← (prE d l).map (wrap l 13); let c ← (prE d r).map (wrap r 12); pure s!"{a} XOR {c}"
+  | .or_ l r => do let a ← (prE d l).map (wrap l 14); let c ← (prE d r).map (wrap r 13); pure s!"{a} OR {c}"
   | .mybatis s => .ok s
 def prList (d : Gen.D) : List Expr → Except Err (List String)
   | [] => .ok []
   | e :: r => do let a ← prE d e; let b ← prList d r; pure (a :: b)
+/-- a list printed at compute level: `source_with_parenthesis(·, sql_type, 8)` -/
+def prList8 (d : Gen.D) : List Expr → Except Err (List String)
+  | [] => .ok []
+  | e :: r => do let a ← prE d e; let b ← prList8 d r; pure (wrap e 8 a :: b)
 def prOptE (d : Gen.D) : Option Expr → Except Err (Option String)
   | none => .ok none
   | some e => (prE d e).map some
@@ -117,7 +151,8 @@ def prArms (d : Gen.D) : List (Expr × Expr) → Except Err (List String)
   | [] => .ok []
   | (w, t) :: r => do let a ← prE d w; let b ← prE d t; let c ← prArms d r; pure (s!"WHEN {a} THEN {b}" :: c)
 def prOrd (d : Gen.D) : OrderItem → P
-  | .mk e desc nf nl => (prE d e).map fun c =>
+  | .mk e desc nf nl => (prE d e).map fun c0 =>
+      let c := wrap e 8 c0
       let n := (if nf then " NULLS FIRST" else "") ++ (if nl then " NULLS LAST" else "")
       if desc then s!"{c} DESC{n}" else s!"{c}{n}"
 def prOrdList (d : Gen.D) : List OrderItem → Except Err (List String)
@@ -129,7 +164,7 @@ def prTableRef (d : Gen.D) : TableRef → P
 def prFrom (d : Gen.D) : FromTable → P
   | .mk t a => do
       let n ← prTableRef d t
-      pure (match a with | some a => s!"{n} AS {a}" | none => n)
+      pure (match a with | some a => s!"{n} AS {quoteName a}" | none => n)
 def prFromList (d : Gen.D) : List FromTable → Except Err (List String)
   | [] => .ok []
   | t :: r => do let a ← prFrom d t; let b ← prFromList d r; pure (a :: b)
@@ -149,18 +184,18 @@ def prSets (d : Gen.D) : List (List Expr) → Except Err (List String)
   | g :: r => do
       let a ← (match g with
         | [] => .error (.py .IndexError)
-        | [x] => prE d x
-        | x :: y :: z => (prList d (x :: y :: z)).map fun p => s!"({joinS ", " p})")
+        | [x] => (prE d x).map (wrap x 8)
+        | x :: y :: z => (prList8 d (x :: y :: z)).map fun p => s!"({joinS ", " p})")
       let b ← prSets d r
       pure (a :: b)
 def prLateral (d : Gen.D) : Lateral → P
-  | .mk o fn v as => (prE d fn).map fun f => s!"LATERAL VIEW {if o then "OUT " else ""}{f} {v} AS {joinS ", " as}"
+  | .mk o fn v as => (prE d fn).map fun f => s!"LATERAL VIEW {if o then "OUTER " else ""}{f} {v} AS {joinS ", " (as.map quoteName)}"
 def prLateralList (d : Gen.D) : List Lateral → Except Err (List String)
   | [] => .ok []
   | l :: r => do let a ← prLateral d l; let b ← prLateralList d r; pure (a :: b)
 def prWithTables (d : Gen.D) : List WithTable → Except Err (List String)
   | [] => .ok []
-  | .mk n q :: r => do let a ← prQ d q; let b ← prWithTables d r; pure (s!"{n}({a})" :: b)
+  | .mk n q :: r => do let a ← prQ d q; let b ← prWithTables d r; pure (s!"{quoteName n} AS ({a})" :: b)
 /-- `ASTWithClause.source` followed by the statement's own separator; `None.is_empty()` is an AttributeError -/
 def prWithPrefix (d : Gen.D) (sep : String) : Option (List WithTable) → P
   | none => .error (.py .AttributeError)
@@ -170,10 +205,10 @@ def prCols (d : Gen.D) : List (Expr × Option String) → Except Err (List Strin
   | (e, a) :: r => do
       let x ← prE d e
       let b ← prCols d r
-      pure ((match a with | some a => s!"{x} AS {a}" | none => x) :: b)
+      pure ((match a with | some a => s!"{x} AS {quoteName a}" | none => x) :: b)
 def prGroupBy (d : Gen.D) : GroupBy → P
   | .mk gc sets cube rollup => do
-      let c ← prList d gc
+      let c ← prList8 d gc
       let s ← (match sets with
         | some l => (prSets d l).map fun x => " GROUPING SETS (" ++ joinS ", " x ++ ")"
         | none => pure "")
@@ -192,8 +227,8 @@ def prS (d : Gen.D) : Select → P
       let obs ← (match ob with | some l => (prOrdList d l).map fun x => ["ORDER BY " ++ joinS ", " x] | none => pure [])
       let hive ← (if d == .HIVE then do
           let a ← (match sb with | some l => (prOrdList d l).map fun x => ["SORT BY " ++ joinS ", " x] | none => pure [])
-          let b ← (match db with | some l => (prList d l).map fun x => ["DISTRIBUTE BY " ++ joinS ", " x] | none => pure [])
-          let c ← (match cb with | some l => (prList d l).map fun x => ["CLUSTER BY " ++ joinS ", " x] | none => pure [])
+          let b ← (match db with | some l => (prList8 d l).map fun x => ["DISTRIBUTE BY " ++ joinS ", " x] | none => pure [])
+          let c ← (match cb with | some l => (prList8 d l).map fun x => ["CLUSTER BY " ++ joinS ", " x] | none => pure [])
           pure (a ++ b ++ c)
         else pure [])
       let lms := match lm with | some l => [limitSrc l] | none => []
@@ -234,8 +269,8 @@ def prDefCol (d : Gen.D) (c : DefCol) : P := do
         | none => .error (.py .AttributeError))
       else pure ""
     | none => pure "")
-  let dflt ← (match c.default with | some e => if my then (prE d e).map fun x => s!" DEFAULT {x}" else pure "" | none => pure "")
-  let onu ← (match c.onUpdate with | some e => if my then (prE d e).map fun x => s!" ON UPDATE {x}" else pure "" | none => pure "")
+  let dflt ← (match c.default with | some e => if my then (prE d e).map fun x => s!" DEFAULT {wrap e 8 x}" else pure "" | none => pure "")
+  let onu ← (match c.onUpdate with | some e => if my then (prE d e).map fun x => s!" ON UPDATE {wrap e 8 x}" else pure "" | none => pure "")
   pure (s!"`{c.name}` {ty}"
     ++ (if c.unsigned && my then " UNSIGNED" else "")
     ++ (if c.zerofill && my then " ZEROFILL" else "")
@@ -257,18 +292,17 @@ def prIndex (i : Index) : String :=
     ++ (match i.usingMethod with | some u => s!" USING {u}" | none => "")
     ++ (match i.comment with | some c => s!" COMMENT {c}" | none => "")
     ++ (match i.keyBlockSize with | some n => s!" KEY_BLOCK_SIZE={n}" | none => "")
-/-- `ASTForeignKeyExpression.source` (prints the ON DELETE action after ON UPDATE, `node.py:1527`) -/
+/-- `ASTForeignKeyExpression.source` -/
 def prForeignKey (f : ForeignKey) : String :=
   s!"CONSTRAINT {f.constraint} FOREIGN KEY ({joinS ", " f.slave}) REFERENCES {f.master} ({joinS ", " f.masterCols})"
     ++ (match f.onDelete with | some a => s!" ON DELETE {a}" | none => "")
-    ++ (match f.onUpdate with | some _ => s!" ON UPDATE {pyOptStr f.onDelete}" | none => "")
-where pyOptStr : Option String → String | none => "None" | some s => s
+    ++ (match f.onUpdate with | some a => s!" ON UPDATE {a}" | none => "")
 
 def prColOrIdx (d : Gen.D) : ColOrIdx → P
   | .col c => prDefCol d c | .idx i => .ok (prIndex i) | .fk f => .ok (prForeignKey f)
 
 def prAlterOp (d : Gen.D) : AlterOp → P
-  | .addPartition b p => (prPartition d p).map fun x => s!"DROP{if b then " IF NOT EXISTS" else ""} {x}"
+  | .addPartition b p => (prPartition d p).map fun x => s!"ADD{if b then " IF NOT EXISTS" else ""} {x}"
   | .add x => (prColOrIdx d x).map fun s => s!"ADD {s}"
   | .modify x => (prColOrIdx d x).map fun s => s!"MODIFY {s}"
   | .change f t => (prColOrIdx d t).map fun s => s!"CHANGE {f} {s}"
@@ -310,18 +344,19 @@ def prCreateHive (c : CreateTable) : P := do
     ++ (if c.storedAsTextfile then " STORED AS TEXTFILE" else "")
     ++ (match c.outputformat with | some s => s!" OUTPUTFORMAT {s}" | none => "")
     ++ (match c.location with | some s => s!" LOCATION {s}" | none => "")
-    ++ (if c.tblproperties.isEmpty then "" else "TBLPROPERTIES (" ++ joinS ", " (c.tblproperties.map fun p => s!"{p.name}={p.value}") ++ ")"))
+    ++ (if c.tblproperties.isEmpty then "" else " TBLPROPERTIES (" ++ joinS ", " (c.tblproperties.map fun p => s!"{p.name}={p.value}") ++ ")"))
 
 def tn (t : TableName) : String := tableNameSrc t.schema t.name
 
-/-- `ASTInsertStatement._insert_str` (the WITH clause is not printed) -/
+/-- `ASTInsertStatement._insert_str` -/
 def prInsertHead (d : Gen.D) (h : InsertHead) : P := do
   let ty ← wordsSrc Gen.insertTypes h.type
   let part ← (match h.partition with | some p => (prPartition d p).map fun x => x ++ " " | none => pure "")
   let cols := match h.columns with
     | some cs => "(" ++ joinS ", " (cs.map fun (t, c) => columnSrc d t c) ++ ") "
     | none => ""
-  pure s!"{ty} {if d == .HIVE then "TABLE " else ""}{tn h.table} {part}{cols}"
+  let w ← prWithPrefix d "\n" h.withs
+  pure s!"{w}{ty} {if d == .HIVE then "TABLE " else ""}{tn h.table} {part}{cols}"
 
 def prTail (d : Gen.D) (wh : Option Expr) (ob : Option (List OrderItem)) (lm : Option (Int × Option Int)) : P := do
   let a ← (match wh with | some e => (prE d e).map fun x => s!" WHERE {x}" | none => pure "")
